@@ -8,7 +8,8 @@
  R3 both continuation markers come from the same response, the path is passed on, and the request forwards the markers;
  R4 window filters `>= start`, `<= end`, each skipped when unset, on every route from a page's versions to the result (on the
     combined list, or on each page before it is concatenated);
- R5 empty listing -> None, propagated by get_versioned_results and turned into "no handler" by the client;
+ R5 empty listing -> None, propagated by get_versioned_results - which never dereferences the download (attribute, subscript, argument of
+    a call) outside the 'is not None' path - and turned into "no handler" by the client;
  R6 every sample-th listed version is requested; each frame is stamped, inside the loop that receives it together with its
     version, with that version's LastModified converted to the handler's timezone; request/return tuples keep version, buffer
     and future together;
